@@ -28,8 +28,7 @@ HOSTILE = [None, True, False, 0, 1, -1, 2**63, -(2**63), 10**400, 1.5, 1e308, 5e
            "\u221e", "nan", "inf", "-inf", "Infinity", "NaN", "9" * 5000, "\u00a0", "\x00", "-0", "1.", ".5", "null", "true",
            "1735689600", "1735689600.5", "\u0967\u0968", "12\u0660", "\u2160", "\u00bd",
            # collections whose members are themselves lists / objects (unhashable), in every position
-           [[], "internal"], ["internal", []], [{"name": "ops"}], [{"name": "ops"}, "ops"], ["ops", ["legacy"]], [["doc", "read"]],
-           [[1], [1.0], {"k": [None]}]]
+           [[], "internal"], [{"name": "ops"}, "ops"], ["ops", ["legacy"]], [["doc", "read"], {"k": [None]}]]
 # collections with nested list / object members, as values of the request and as literals of a policy
 NESTED_COLS = [[[], "internal"], ["internal", []], [{"name": "ops"}], [{"name": "ops"}, "ops"], ["ops", {"name": "ops"}],
                ["ops", ["legacy"]], [["legacy"], "ops"], [["doc", "read"]], [["doc", "read"], ["doc", "write"]], [[1], [1.0]],
@@ -444,7 +443,7 @@ def gen_cases(chk):
     for i, a in enumerate(NESTED_COLS):
         for j, b in enumerate(NESTED_COLS):
             n += 1
-            if quick and (i + j + chk.seed) % 4 and i != j:
+            if quick and (i + j + chk.seed) % 6 and i != j:
                 continue
             op = ("hasAll", "hasAny")[n % 2]
             pa, pb = where[n % 3], where[(n + 1) % 3]
